@@ -41,10 +41,10 @@ pub(crate) mod kani_verif {
             }
         };
     }
-    // @h name=c08_shake_wrapper_256 props=C08,C07,C09 tier=thorough kind=proved cfg=default timeout=900 funcs=Shake256_256::finalize;Shake256_256::finalize_reset;Shake256_256::update contract="finalize / finalize_reset return the first OUTPUT_SIZE bytes of the SHAKE256 output of what was absorbed; finalize_reset resets; Keccak-f replaced by a deterministic stand-in (sha3 trusted)"
+    // @h name=c08_shake_wrapper_256 props=C08,C07,C09 tier=extended kind=proved cfg=default timeout=900 funcs=Shake256_256::finalize;Shake256_256::finalize_reset;Shake256_256::update contract="finalize / finalize_reset return the first OUTPUT_SIZE bytes of the SHAKE256 output of what was absorbed; finalize_reset resets; Keccak-f replaced by a deterministic stand-in (sha3 trusted)"
     shake_wrapper_harness!(c08_shake_wrapper_256, Shake256_256, 32);
-    // @h name=c08_shake_wrapper_192 props=C08,C07,C09 tier=thorough kind=proved cfg=default timeout=900 funcs=Shake256_192::finalize;Shake256_192::finalize_reset contract="same, OUTPUT_SIZE = 24"
+    // @h name=c08_shake_wrapper_192 props=C08,C07,C09 tier=extended kind=proved cfg=default timeout=900 funcs=Shake256_192::finalize;Shake256_192::finalize_reset contract="same, OUTPUT_SIZE = 24"
     shake_wrapper_harness!(c08_shake_wrapper_192, Shake256_192, 24);
-    // @h name=c08_shake_wrapper_128 props=C08,C07,C09 tier=thorough kind=proved cfg=default timeout=900 funcs=Shake256_128::finalize;Shake256_128::finalize_reset contract="same, OUTPUT_SIZE = 16"
+    // @h name=c08_shake_wrapper_128 props=C08,C07,C09 tier=extended kind=proved cfg=default timeout=900 funcs=Shake256_128::finalize;Shake256_128::finalize_reset contract="same, OUTPUT_SIZE = 16"
     shake_wrapper_harness!(c08_shake_wrapper_128, Shake256_128, 16);
 }
